@@ -87,6 +87,12 @@ def run(ctx):
     r9_label_key_domain(ctx)
     r10_take_and_levels(ctx)
     r11_label_position(ctx)
+    # "its context is exactly the example's features without the label", also when a feature is read by header name
+    from . import c13
+    c13.r16_position_changing_views(ctx, rule="C14.R12")
+    # "regression data [is rewarded] by the negative absolute error" of the label AS GIVEN
+    from . import c06
+    c06.r15_reward_constructors(ctx, rule="C14.R13")
 
 
 def _final_loops(fn):
@@ -378,6 +384,7 @@ def r9_label_key_domain(ctx):
 
 
 CONTROLS = [
+    ("regression labels coerced to float", PRIM, M.replace_expr("L1Reward.__init__", "argmax if not hasattr(argmax, 'ndim') else argmax.item()", "float(argmax if not hasattr(argmax, 'ndim') else argmax.item())"), "C14.R13"),
     ("HammingReward iterates whatever action it gets", PRIM, M.delete_stmt("HammingReward.__call__", M.text_has("comparable = [comparable]")), "C14.R7"),
     ("negative label positions reach DropOne", ROWS, M.delete_stmt("LabelRows.filter", M.text_has("ind += len(first)")), "C14.R11"),
     ("categorical labels compared by level index", PRIM, M.replace_expr("BinaryReward.__call__", "argmax == comparable", "(argmax.as_int == comparable.as_int if argmax.__class__ is Categorical and comparable.__class__ is Categorical else argmax == comparable)"), "C14.R7"),
